@@ -357,6 +357,11 @@ def redis_txn_rules(ctx: Ctx, ops=("enqueue", "ack", "nack", "reject", "requeue"
                 ok = isinstance(mp, ast.Dict) and len(mp.keys) == 1 and unparse(mp.keys[0]) == "mnc(key, short=True)"
                 ctx.check(ok, rule_t, h, f"redis {hname}: zadd member is the message's short name", "mnc(key, short=True)", f"redis {hname} zadds {unparse(mp)}", node=c, instance=f"redis {hname}: zadd member")
     t = ctx.func(f"{C.REDIS_CONS}.__get_message_name")
+    blind = [c for _o, c in C.flat_walk(ctx, t) if isinstance(c, ast.Call) and isinstance(c.func, ast.Attribute) and dotted(c.func.value) == "pipe"
+             and c.func.attr in ("rpop", "lpop", "zpopmin", "zpopmax", "rpoplpush", "lmove", "blpop", "brpop")]
+    ctx.check(not blind, rule_t, t, "redis take removes the fetched name itself", "LREM/ZREM by name",
+              f"redis take removes whatever element is at the end of the queue ({unparse(blind[0])[:60] if blind else ''}) instead of the name it fetched: with a topic filter the delivered message stays "
+              "queued (and is delivered again) while a foreign message vanishes", node=blind[0] if blind else None, instance="redis take: removal by name")
     for _own, c in C.flat_walk_bound(ctx, t):
         if isinstance(c, ast.Call) and isinstance(c.func, ast.Attribute) and dotted(c.func.value) == "pipe" and c.func.attr in ("lrem", "zrem"):
             ok = unparse(c.args[0]) == "full_queue_name" and unparse(c.args[-1]) == "msg_short_name"
